@@ -69,7 +69,7 @@ def reserialise(context):
 # validator
 # --------------------------------------------------------------------------
 class Verdict(object):
-    __slots__ = ("kind", "exc", "exc_class", "pictures", "state", "site", "tb", "report_error")
+    __slots__ = ("kind", "exc", "exc_class", "pictures", "state", "site", "tb", "report_error", "picture_refs")
 
     def __init__(self):
         self.kind = None  # "ok" | "ce" | "crash" | "oos"
@@ -80,6 +80,12 @@ class Verdict(object):
         self.site = None
         self.tb = None
         self.report_error = None
+        self.picture_refs = []  # the very objects handed to the callback (what a consumer that keeps them ends up with)
+
+    def pictures_changed_after_output(self):
+        """indices of pictures whose object, as retained by the consumer, no longer equals the snapshot taken when it was output"""
+        return [i for i, (ref, snap) in enumerate(zip(self.picture_refs, self.pictures))
+                if snap is not None and ref is not snap[0] and ref != snap[0]]
 
     @property
     def accepted(self):
@@ -104,6 +110,7 @@ def validate(data, keep_pictures=True, check_reporting=False, deepcopy_pictures=
 
     def cb(picture, video_parameters, picture_coding_mode):
         if keep_pictures:
+            v.picture_refs.append(picture)
             v.pictures.append(
                 (copy.deepcopy(picture) if deepcopy_pictures else picture, copy.deepcopy(video_parameters), picture_coding_mode)
             )
